@@ -10,6 +10,7 @@ CU_FILE = None       # its source path (the traced file)
 _REAL_LOCK_TYPES = ()
 _ORIG_LOCK_FACTORY = None
 _REAL_LOCK_FACTORIES = (None, None)
+_MODULE_LOCK_NAMES = {}
 
 
 def setup(root):
@@ -22,6 +23,16 @@ def setup(root):
     global _ORIG_LOCK_FACTORY, _REAL_LOCK_FACTORIES
     _ORIG_LOCK_FACTORY = getattr(m, 'RLock', None)
     _REAL_LOCK_FACTORIES = (threading.RLock, threading.Lock)
+    # every module-level name bound to a real lock factory is a seam (the module may build its own
+    # lock class on top of threading.Lock: that class is code under test and stays as it is)
+    import _thread
+    global _MODULE_LOCK_NAMES
+    _MODULE_LOCK_NAMES = {}
+    for name, val in list(vars(m).items()):
+        if val is threading.RLock or val is getattr(_thread, 'RLock', None):
+            _MODULE_LOCK_NAMES[name] = 'rlock'
+        elif val is threading.Lock or val is _thread.allocate_lock:
+            _MODULE_LOCK_NAMES[name] = 'lock'
 
     def tiny():
         c = m.LRU(max_size=1)
@@ -166,9 +177,13 @@ def make_cache(case, ctx, sched=None):
     if sched is not None:
         # the lock seam: whatever factory the module bound to the name RLock is replaced by
         # the simulated lock of the same kind (a plain Lock stays non re-entrant)
-        if _ORIG_LOCK_FACTORY is _REAL_LOCK_FACTORIES[1]:
-            cu.RLock = lambda *a, **k: threadsim.SimLock(sched)
-        else:
+        for name, kind in _MODULE_LOCK_NAMES.items():
+            if kind == 'lock':
+                setattr(cu, name, lambda *a, **k: threadsim.SimLock(sched))
+            else:
+                setattr(cu, name, lambda *a, **k: threadsim.SimRLock(sched))
+        if 'RLock' not in _MODULE_LOCK_NAMES and getattr(_ORIG_LOCK_FACTORY, '__module__', None) != cu.__name__:
+            # bound to something else that is not the module's own code (a dummy, a C factory ...)
             cu.RLock = lambda *a, **k: threadsim.SimRLock(sched)
     import threading
     saved = (threading.RLock, threading.Lock)
